@@ -30,6 +30,8 @@ def dclass(doc):
         shape.append("dangling-target")
     if any(n in ("missing", "bad", "nondict") for n in names):
         shape.append("badname")
+    if "root" in names:
+        shape.append("rootname")
     return "%s|ver=%s tgt=%s els=%s|%s|%s" % (doc["flavour"], doc["ver"], doc["tgtc"], doc["elsc"],
                                               "+".join(flds) or "plain", "+".join(shape) or "tree")
 
@@ -71,12 +73,15 @@ def signature(clause, doc, t):
                     culprits.add("value or verdict of %s changed" % ("a valid target" if r["valid"] else "a target"))
         return "C16|%s|%s|%s" % (clause, fl, ";".join(sorted(culprits)) or "cause not classified")
     flds = sorted({it["fld"] for it in doc["items"] if it["fld"] != "ok"})
-    return "C16|%s|%s|stage=%s|fields=%s" % (clause, fl, t.get("stage", "-"), "+".join(flds) or "plain")
+    rootnamed = any(it["name"] == "root" for it in doc["items"])
+    return "C16|%s|%s|stage=%s|fields=%s%s" % (clause, fl, t.get("stage", "-"), "+".join(flds) or "plain",
+                                              "|an element carries the reserved name of the root of trust"
+                                              if rootnamed else "")
 
 
 def run_docs(ctx, docs, nproc):
     jobs = [(d, ctx.scratch) for d in docs]
-    results = wdpool.run_jobs(certload.execute, jobs, nproc=nproc, budget=2.0, retry_budget=10.0, max_hangs=6)
+    results = wdpool.run_jobs(certload.execute, jobs, nproc=nproc, budget=2.0, retry_budget=6.0, max_hangs=6)
     out = []
     for d, r in zip(docs, results):
         if r["status"] == "ok":
@@ -111,7 +116,7 @@ def run(ctx):
         "any exception raised by from_jsonfile counts as 'reports an error' (the property asks for termination "
         "and an error-or-usable outcome, not for a particular exception type)",
         "termination on the real code = an answer within 2 s per document in a worker process (retried once "
-        "alone with 10 s before it is called a hang; after 6 hangs the remaining documents are skipped); documents are at most a few kB",
+        "alone with 6 s before it is called a hang; after 6 hangs the remaining documents are skipped); documents are at most a few kB",
         "the loaded graph is read from the loaded object (_targets, _elements[*].signed_by, ROOT_ELEMENT); "
         "names are projected equality-preservingly (Python dict-key equality) to strings",
         "verdicts and values are compared as (valid, failing element | sha-256 of value and tweak)",
@@ -144,7 +149,8 @@ def run(ctx):
         raise core.MachineryError("CertLoad: termination / step bound violated: %s" % rl.violated)
     res.add_tlc(rl, "Live_CertLoad: Terminates under WF (no state constraint) + step-count invariants")
     negs = []
-    for cfg, inv in (("Neg_CertLoad.cfg", "NeverDupWins"), ("Neg2_CertLoad.cfg", "NeverCycle")):
+    for cfg, inv in (("Neg_CertLoad.cfg", "NeverDupWins"), ("Neg2_CertLoad.cfg", "NeverCycle"),
+                     ("Neg3_CertLoad.cfg", "NeverRootNamed")):
         rn = tlc.run("CertLoad", cfg, workers=2)
         if inv not in rn.violated:
             raise core.MachineryError("vacuity guard: %s is not violated by the model" % inv)
@@ -168,7 +174,9 @@ def run(ctx):
     firsts, seen = [], set()
     for i in order:
         b = behaviours[i]
-        key = (b["phase"], b["ver"], b["tgtc"], b["elsc"], tuple(sorted({it["fld"] for it in b["items"]})),
+        byname = {it["name"]: b["by"][j] for j, it in enumerate(b["items"])}
+        rootshape = ("root" in byname, byname.get("root"), byname.get(byname.get("root")), "root" in b["targets"])
+        key = (b["phase"], b["ver"], b["tgtc"], b["elsc"], tuple(sorted({it["fld"] for it in b["items"]})), rootshape,
                tuple(sorted({it["name"] for it in b["items"] if it["name"] in ("missing", "bad", "nondict")})))
         if key not in seen:
             seen.add(key)
@@ -195,7 +203,10 @@ def run(ctx):
     drift = 0
     for k in range(n_model):
         b, t = behaviours[origin[k]], obs[k]
-        if t is not None and (b["phase"] == "error") != (t["o1"]["outcome"] == "error"):
+        # a version-1 element cannot be named "root": that rendering must be refused where the model loads
+        expect_error = b["phase"] == "error" or (docs[k]["flavour"] == "v1"
+                                                  and any(it["name"] == "root" for it in b["items"]))
+        if t is not None and expect_error != (t["o1"]["outcome"] == "error"):
             drift += 1
     kept = [k for k, t in enumerate(obs) if t is not None]
     docs, obs = [docs[k] for k in kept], [obs[k] for k in kept]
@@ -259,7 +270,8 @@ def run(ctx):
                 tgt = p["o1"]["targets"][0]                                            # a cycle through the target
                 for g in p["o1"]["graph"]:
                     if g["name"] == tgt:
-                        g["by"] = tgt
+                        # (an element named like the root that signs itself DOES reach the root: dangle it)
+                        g["by"] = tgt if tgt != p["o1"]["root"] else "s:__nowhere__"
             else:
                 p["o1"]["val"] = "hang"
             doctored.append(p)
